@@ -497,6 +497,11 @@ def c10a_clone_from_clears(prog):
         if p.ended not in ('return', 'cutoff'):
             continue
         idmap = p.ret if p.ended == 'return' else None
+        if p.ended == 'return' and not (isinstance(idmap, tuple) and idmap and idmap[0] == 'call'):
+            # the map is not returned but consumed on the spot: it is the one the allocator is remapped with
+            ac = p.calls(lambda e: e['name'] in ('clone_from', 'clone') and e['path'].startswith('entity::allocator::Allocator'))
+            if ac:
+                idmap = S(ac[-1]['vals'][-1])
         # ---- source loop
         for s_el in yielded(p, 'iter', p_src):
             n_src += 1
